@@ -8,6 +8,7 @@
      what follows it is arbitrary (since f6cf806 a later write only kills when it is at the top level of the
      function body, where it is certainly executed; before that fix the class had to demand that the rest of
      the function assigns none of the region's names);
+     no comprehension occurs in the function;
      line numbers are what a parser produces (everything before the region on earlier lines, after it on later
      lines, the def line is line 1). *)
 From Coq Require Import List NArith ZArith Bool.
@@ -44,14 +45,80 @@ Fixpoint reads_s (s : stmt) : list var :=
   end.
 Definition reads (ss : list stmt) : list var := flat_map reads_s ss.
 
+(* no comprehension anywhere (their loop variables are written/unwritten by the collector in a way the class
+   below does not account for) *)
+Fixpoint nocomp_e (e : expr) : bool :=
+  match e with
+  | EComp _ _ _ => false
+  | EBin _ a b => nocomp_e a && nocomp_e b
+  | _ => true
+  end.
+Fixpoint nocomp_s (s : stmt) : bool :=
+  match s with
+  | SAssign _ _ e | SAug _ _ _ e | SPrint _ e | SReturn _ e => nocomp_e e
+  | SIf _ c a b => nocomp_e c && forallb nocomp_s a && forallb nocomp_s b
+  | SWhile _ c b e => nocomp_e c && forallb nocomp_s b && forallb nocomp_s e
+  | SFor _ _ e b els => nocomp_e e && forallb nocomp_s b && forallb nocomp_s els
+  | SCall _ _ _ body _ _ => forallb nocomp_s body
+  | _ => true
+  end.
+Definition nocomp (ss : list stmt) : bool := forallb nocomp_s ss.
+
 Definition compound (s : stmt) : bool :=
   match s with SIf _ _ _ _ | SWhile _ _ _ _ | SFor _ _ _ _ _ => true | _ => false end.
 
 Definition side_C03 (params : list var) (pre R post : list stmt) : bool :=
-  straight R && accepted R && nocall pre && nocall post
+  straight R && accepted R && nocall pre && nocall post && nocomp pre && nocomp R && nocomp post
   && N.ltb 1 (first_line R)
   && forallb (fun l => N.ltb l (first_line R)) (blines pre)
   && forallb (fun s => N.leb (first_line R) (line_of s) && N.leb (line_of s) (last_line R)) R
+  && forallb (fun l => N.ltb (last_line R) l) (blines post)
+  && subset (defs pre) (params ++ mustd pre)
+  && conv_b (pre ++ R ++ post) k0.
+
+(* ------------------------------------------------------------------ a wider class, NOT proved
+   Regions that also contain `if` statements (with straight-line branches) at the top level of the function
+   body. The three open defects of the collector that concern regions are excluded exactly as follows:
+     C03-loop-carried / C03-loop-prewritten  cannot apply: the region is not inside a loop and contains none;
+     C03-maybe-written-read                  a read that the collector performs while `conditional` is set (the
+                                             test or a branch of an `if` of the region) must not be of a name that
+                                             an EARLIER `if` of the region, or the then-branch of the same `if`,
+                                             may have assigned, unless the branch itself assigned it before
+                                             reading it ([masked] below);
+     C03-arg-maybe-unbound (result side)     every name assigned inside an `if` of the region is a parameter or
+                                             is assigned before the region ([cond_defs] below).
+   The harness evaluates side_C03_if for every generated case and checks (inside Coq) that outline_ok holds
+   for the collector's args/returns whenever it does: a counterexample would be reported. It is a checked
+   conjecture, not a theorem. *)
+Definition if_or_simple (s : stmt) : bool :=
+  match s with
+  | SIf _ _ a b => straight a && straight b
+  | s => simple_s s
+  end.
+
+Fixpoint masked (R : list stmt) (MW : list var) : bool :=
+  match R with
+  | [] => false
+  | SIf _ c a b :: r =>
+      existsb (fun x => mem x MW) (vars_e c ++ ue a ++ ue b)
+      || existsb (fun x => mem x (defs a)) (ue b)
+      || masked r (MW ++ defs a ++ defs b)
+  | _ :: r => masked r MW
+  end.
+
+Fixpoint cond_defs (R : list stmt) : list var :=
+  match R with
+  | [] => []
+  | SIf _ _ a b :: r => defs a ++ defs b ++ cond_defs r
+  | _ :: r => cond_defs r
+  end.
+
+Definition side_C03_if (params : list var) (pre R post : list stmt) : bool :=
+  forallb if_or_simple R && accepted R && nocall pre && nocall post && nocomp pre && nocomp R && nocomp post
+  && negb (masked R []) && subset (cond_defs R) (params ++ defs pre)
+  && N.ltb 1 (first_line R)
+  && forallb (fun l => N.ltb l (first_line R)) (blines pre)
+  && forallb (fun l => N.leb (first_line R) l && N.leb l (last_line R)) (blines R)
   && forallb (fun l => N.ltb (last_line R) l) (blines post)
   && subset (defs pre) (params ++ mustd pre)
   && conv_b (pre ++ R ++ post) k0.
